@@ -274,7 +274,12 @@ def det(M):
     return total
 
 
-NP_FUNCS = {'zeros': np_zeros, 'identity': np_identity, 'roll': np_roll, 'array': np_array, 'sum': np_sum,
+def np_round(interp, args, kwargs, node):
+    from .builtins_ import round_value
+    return round_value(interp, args[0], args[1] if len(args) > 1 else kwargs.get('decimals', 0), node)
+
+
+NP_FUNCS = {'round': np_round, 'zeros': np_zeros, 'identity': np_identity, 'roll': np_roll, 'array': np_array, 'sum': np_sum,
             'shape': np_shape, 'size': np_size}
 
 
